@@ -4,10 +4,15 @@
    by the marching-squares pass into polylines; Render/Contours.v is the model (the two std::map
    tables, the chain growth and the welding walk as the code does them), Render/ContoursSem.v the
    proofs; the model is run against the implementation on segment soups by check/props/c10.py.
-   Oracle-only part: that the segment soup of a solid strictly inside the region consists of
-   closed cycles (each vertex entered once and left once) and winds around the solid. *)
+   Emission (Render/DCGrid2.v, DCGrid2Sem.v): Dual<2>::walk + DCContourer::load on a UNIFORM grid
+   with the patch tables libfive builds at start-up (Gen/MarchTables_gen.v, dumped from the
+   implementation on every run): the soup is a disjoint union of directed cycles, for every
+   filled / empty assignment of the lattice points.
+   Oracle-only part: grids with cells of different levels (merged cells), and that the loops
+   wind around the solid. *)
 From Coq Require Import List Arith Permutation.
-From LF Require Import Render.Contours Render.ContoursSem.
+From Coq Require Import ZArith.
+From LF Require Import Render.Contours Render.ContoursSem Gen.MarchTables_gen Render.DCGrid2 Render.DCGrid2Sem.
 Import ListNotations.
 
 (* nothing is lost, duplicated or invented: the consecutive pairs of the returned polylines
@@ -33,7 +38,29 @@ Theorem C10_loops_hypothesis_tight :
   ((forall v, out_deg v star3 = in_deg v star3) /\ ~ (forall l, In l (collect star3) -> closed l)).
 Proof. split; [exact collect_closed_manifold_refuted | exact collect_closed_balanced_refuted]. Qed.
 
+(* EMISSION on a uniform grid: for every filled / empty assignment with finitely many sign
+   changes, every contour vertex is left exactly as often as it is entered, and at most once *)
+Theorem C10_emission_gives_cycles : forall ins E, covers2 ins E ->
+  forall v, (out_deg2 v (contour_soup ins E) = in_deg2 v (contour_soup ins E)) /\
+            (out_deg2 v (contour_soup ins E) <= 1)%nat.
+Proof. exact emission_loops. Qed.
+
+(* EMISSION + WELDING: with any injective numbering of the vertices (pushVertex hands out fresh
+   indices), every contour Contours::collect returns for a uniform-grid slice is closed *)
+Theorem C10_uniform_grid_contours_closed : forall ins E idx,
+  covers2 ins E -> inj_on idx (contour_soup ins E) ->
+  forall l, In l (collect (renum idx (contour_soup ins E))) -> closed l.
+Proof. exact emission_then_welding_closed. Qed.
+
+(* non-vacuity for every finite solid: the sign-changing edges of any finite set of filled
+   lattice points satisfy the hypothesis *)
+Theorem C10_every_finite_solid_covered : forall F, covers2 (filled_in F) (edges_of F).
+Proof. exact covers2_edges_of. Qed.
+
 Print Assumptions C10_segments_preserved.
 Print Assumptions C10_polylines_are_paths.
 Print Assumptions C10_loops_are_closed.
 Print Assumptions C10_loops_hypothesis_tight.
+Print Assumptions C10_emission_gives_cycles.
+Print Assumptions C10_uniform_grid_contours_closed.
+Print Assumptions C10_every_finite_solid_covered.
